@@ -323,10 +323,12 @@ theorem entryTail_keeps_good (w : World) (c : Cfg) (p rel id s : Text) (cmp : Cm
     ∃ es', Holds (entryTail w c p rel id s cmp).1.fs p es' ∧ Good es' ∧
       (∀ o ∈ es', o.id = id ∨ o.id ∈ ids es) ∧ (∀ o ∈ es', o.body = s ∨ o.body ∈ es.map (·.body)) ∧
       ((fsRead w.fs p ≠ none ∨ Generated.shouldCreate w.env c.update = true) →
-        fsRead (entryTail w c p rel id s cmp).1.fs p ≠ none) := by
+        fsRead (entryTail w c p rel id s cmp).1.fs p ≠ none) ∧
+      (∀ o ∈ es, o.id ∈ ids es') := by
   have hidm : ∀ o ∈ es, o.id = id ∨ o.id ∈ ids es := fun o ho => Or.inr (List.mem_map.mpr ⟨o, ho, rfl⟩)
   have hbm : ∀ o ∈ es, o.body = s ∨ o.body ∈ es.map (·.body) :=
     fun o ho => Or.inr (List.mem_map.mpr ⟨o, ho, rfl⟩)
+  have hmono : ∀ o ∈ es, o.id ∈ ids es := fun o ho => List.mem_map.mpr ⟨o, ho, rfl⟩
   by_cases hm : id ∈ ids es
   · obtain ⟨e, he, hide⟩ := List.mem_map.mp hm
     obtain ⟨pre, post, hsplit⟩ := List.append_of_mem he
@@ -338,15 +340,15 @@ theorem entryTail_keeps_good (w : World) (c : Cfg) (p rel id s : Text) (cmp : Cm
     have hex : fsRead w.fs p ≠ none := by rw [hread]; simp
     by_cases heq : cmpText cmp e.body = cmpText cmp s
     · rw [entryTail_found_eq w c p rel id s cmp e.body _ hq heq]
-      exact ⟨_, hfile, hgood, hidm, hbm, fun _ => hex⟩
+      exact ⟨_, hfile, hgood, hidm, hbm, fun _ => hex, hmono⟩
     · cases hu : Generated.shouldUpdate w.env c.update with
       | false =>
         rw [(entryTail_found_ne_ro w c p rel id s cmp e.body _ hq heq hu).1]
-        exact ⟨_, hfile, hgood, hidm, hbm, fun _ => hex⟩
+        exact ⟨_, hfile, hgood, hidm, hbm, fun _ => hex, hmono⟩
       | true =>
         rw [entryTail_found_ne_upd w c p rel id s cmp e.body _ _ hread (by rw [← hide]; exact hlook) heq hu]
         refine ⟨pre ++ ⟨e.id, s⟩ :: post, Holds.write _ (by rw [← hide]; exact good_update_split hgood s),
-          good_replace hgood hb hold, ?_, ?_, fun _ => by simp [C19.fsRead_fsWrite_same]⟩
+          good_replace hgood hb hold, ?_, ?_, fun _ => by simp [C19.fsRead_fsWrite_same], ?_⟩
         · intro o ho
           rcases List.mem_append.mp ho with ho | ho
           · exact hidm o (by simp [ho])
@@ -359,6 +361,13 @@ theorem entryTail_keeps_good (w : World) (c : Cfg) (p rel id s : Text) (cmp : Cm
           · rcases List.mem_cons.mp ho with rfl | ho
             · exact Or.inl rfl
             · exact hbm o (by simp [ho])
+        · intro o ho
+          simp only [ids, List.map_append, List.map_cons, List.mem_append, List.mem_cons, List.mem_map]
+          rcases List.mem_append.mp ho with ho | ho
+          · exact Or.inl ⟨o, ho, rfl⟩
+          · rcases List.mem_cons.mp ho with rfl | ho
+            · exact Or.inr (Or.inl rfl)
+            · exact Or.inr (Or.inr ⟨o, ho, rfl⟩)
   · have hfresh : id ∉ fileLines es := not_mem_fileLines id es hid.2.2.1 hid.2.2.2
       (fun o ho => ⟨fun h => hm (h ▸ List.mem_map.mpr ⟨o, ho, rfl⟩), hnb o ho⟩)
     have hq : (fsRead w.fs p).bind (getPrev id) = none := by
@@ -367,7 +376,8 @@ theorem entryTail_keeps_good (w : World) (c : Cfg) (p rel id s : Text) (cmp : Cm
     | true =>
       rw [entryTail_absent w c p rel id s cmp hq hc, hfile.fileOf, (add_refines es id s).1]
       refine ⟨es ++ [⟨id, s⟩], Holds.write _ rfl, hgood.add hid hfresh hb hold hself, ?_, ?_,
-        fun _ => by simp [C19.fsRead_fsWrite_same]⟩
+        fun _ => by simp [C19.fsRead_fsWrite_same],
+        fun o ho => List.mem_map.mpr ⟨o, List.mem_append.mpr (Or.inl ho), rfl⟩⟩
       · intro o ho
         rcases List.mem_append.mp ho with ho | ho
         · exact hidm o ho
@@ -378,7 +388,7 @@ theorem entryTail_keeps_good (w : World) (c : Cfg) (p rel id s : Text) (cmp : Cm
         · simp only [List.mem_singleton] at ho; subst ho; exact Or.inl rfl
     | false =>
       rw [entryTail_absent_ro w c p rel id s cmp hq hc]
-      refine ⟨_, hfile, hgood, hidm, hbm, fun hor => ?_⟩
+      refine ⟨_, hfile, hgood, hidm, hbm, fun hor => ?_, hmono⟩
       rcases hor with h' | h'
       · exact h'
       · cases h'
@@ -408,11 +418,12 @@ theorem run_keeps_good (c : Cfg) (caller p rel : Text)
       Holds w.fs p es → FileInv es₀ N T es →
       ∃ es', Holds (run c caller w h).1.fs p es' ∧ FileInv es₀ N T es' ∧
         ((fsRead w.fs p ≠ none ∨ (Generated.shouldCreate w.env c.update = true ∧ calledNames h ≠ [])) →
-          fsRead (run c caller w h).1.fs p ≠ none) := by
+          fsRead (run c caller w h).1.fs p ≠ none) ∧
+        (∀ o ∈ es, o.id ∈ ids es') := by
   induction h with
   | nil =>
     intro w es _ _ hfile hinv
-    refine ⟨es, hfile, hinv, fun hor => ?_⟩
+    refine ⟨es, hfile, hinv, fun hor => ?_, fun o ho => List.mem_map.mpr ⟨o, ho, rfl⟩⟩
     rcases hor with h' | ⟨_, h'⟩
     · exact h'
     · exact absurd rfl h'
@@ -427,7 +438,7 @@ theorem run_keeps_good (c : Cfg) (caller p rel : Text)
             (testID t (alGet w.running (p, t) + 1)) s cmp).1 h).1 := by
         simp only [run, step, matchEntry_eq w c caller t x cmp s p rel (hsp t)]
       rw [hstep]
-      obtain ⟨es1, h1, g1, i1, b1, x1⟩ := entryTail_keeps_good (bumped w p t x) c p rel
+      obtain ⟨es1, h1, g1, i1, b1, x1, mo1⟩ := entryTail_keeps_good (bumped w p t x) c p rel
         (testID t (alGet w.running (p, t) + 1)) s cmp es hfile hinv.good
         (goodId_testID t _ (hns.names t ht)) (hns.bodies s hs)
         (fun o ho => by
@@ -451,22 +462,93 @@ theorem run_keeps_good (c : Cfg) (caller p rel : Text)
           · rw [e]; exact Or.inr hs
           · obtain ⟨o', ho', e'⟩ := List.mem_map.mp e
             rw [← e']; exact hinv.bodies o' ho'
-      obtain ⟨es2, h2, g2, x2⟩ := ih _ es1 (fun t' ht' => hN t' (by simp [calledNames, ht']))
+      obtain ⟨es2, h2, g2, x2, mo2⟩ := ih _ es1 (fun t' ht' => hN t' (by simp [calledNames, ht']))
         (fun s' hs' => hT s' (by simp [texts, hs'])) h1 hinv1
-      refine ⟨es2, h2, g2, fun hor => x2 (Or.inl (x1 ?_))⟩
-      rcases hor with h' | ⟨h', _⟩
-      · exact Or.inl h'
-      · exact Or.inr h'
+      refine ⟨es2, h2, g2, fun hor => x2 (Or.inl (x1 ?_)), fun o ho => ?_⟩
+      · rcases hor with h' | ⟨h', _⟩
+        · exact Or.inl h'
+        · exact Or.inr h'
+      · obtain ⟨o1, ho1, e1⟩ := List.mem_map.mp (mo1 o ho)
+        rw [← e1]; exact mo2 o1 ho1
     | done x =>
       have hstep : (run c caller w (.done x :: h)).1 = (run c caller (endTest w x) h).1 := by
         simp only [run, step]
       rw [hstep]
-      obtain ⟨es2, h2, g2, x2⟩ := ih (endTest w x) es (fun t' ht' => hN t' (by simpa [calledNames] using ht'))
+      obtain ⟨es2, h2, g2, x2, mo2⟩ := ih (endTest w x) es
+        (fun t' ht' => hN t' (by simpa [calledNames] using ht'))
         (fun s' hs' => hT s' (by simpa [texts] using hs')) (by rw [endTest_fs]; exact hfile) hinv
-      refine ⟨es2, h2, g2, fun hor => x2 ?_⟩
+      refine ⟨es2, h2, g2, fun hor => x2 ?_, mo2⟩
       rw [endTest_fs, endTest_env]
       rcases hor with h' | ⟨h', h''⟩
       · exact Or.inl h'
       · exact Or.inr ⟨h', by simpa [calledNames] using h''⟩
+
+/-! ## the ordinal a call obtains is at most the number of calls of its test
+
+`running` is reset when a test execution ends, `cleanup` is not: the running counter never exceeds the
+cumulative one.  So the ordinal `running + 1` a call obtains is at most the cumulative counter after the
+call, hence at most the number of calls of that test in the whole history — the slot it addresses is one
+`occurrences` protects when `-count=1`. -/
+
+theorem run_running_le_cleanup (c : Cfg) (caller : Text) (h : List Step) :
+    ∀ w : World, (∀ k, alGet w.running k ≤ alGet w.cleanup k) →
+      ∀ k, alGet (run c caller w h).1.running k ≤ alGet (run c caller w h).1.cleanup k := by
+  induction h with
+  | nil => intro w hw k; exact hw k
+  | cons st h ih =>
+    intro w hw
+    cases st with
+    | call t s cmp x =>
+      have hstep : (run c caller w (.call t s cmp x :: h)).1 =
+          (run c caller (matchEntry w c caller t x cmp (.ok s)).1 h).1 := by simp only [run, step]
+      rw [hstep]
+      apply ih
+      intro k
+      obtain ⟨m1, m2, _⟩ := matchEntry_regs w c caller t x cmp (.ok s)
+      rw [m1, m2]
+      by_cases hk : k = ((snapshotPath c caller t false).1, t)
+      · subst hk
+        rw [regBump_running_same, regBump_cleanup_same]
+        exact Nat.succ_le_succ (hw _)
+      · rw [regBump_running_other _ _ _ hk, regBump_cleanup_other _ _ _ hk]
+        exact hw k
+    | done x =>
+      have hstep : (run c caller w (.done x :: h)).1 = (run c caller (endTest w x) h).1 := by
+        simp only [run, step]
+      rw [hstep]
+      apply ih
+      intro k
+      rw [endTest_running, endTest_cleanup]
+      split
+      · exact Nat.zero_le _
+      · exact hw k
+
+/-- **the ordinal of a call**: in a history run from a fresh process, the call of `t` that comes after `h1`
+    obtains an ordinal (`running + 1`) that is at most the number of calls of `t` in the whole history -/
+theorem ordinal_le_calls (env : Generated.Env) (fs₀ : FS) (c : Cfg) (caller p : Text)
+    (hsp : ∀ t, (snapshotPath c caller t false).1 = p) (h1 h2 : List Step) (t s : Text) (cmp : Cmp) (x : Nat) :
+    alGet (run c caller { env := env, fs := fs₀ } h1).1.running (p, t) + 1 ≤
+      (calledNames (h1 ++ .call t s cmp x :: h2)).count t := by
+  have hle := run_running_le_cleanup c caller h1 { env := env, fs := fs₀ } (fun _ => Nat.le_refl _) (p, t)
+  have hreg := run_regInv c caller p hsp h1 _ [] (RegInv.fresh p env fs₀)
+  rw [hreg.get t, List.append_nil, List.count_reverse] at hle
+  have : (calledNames (h1 ++ .call t s cmp x :: h2)).count t =
+      (calledNames h1).count t + 1 + (calledNames h2).count t := by
+    have happ : ∀ a b : List Step, calledNames (a ++ b) = calledNames a ++ calledNames b := by
+      intro a b
+      induction a with
+      | nil => rfl
+      | cons st a ih => cases st <;> simp [calledNames, ih]
+    rw [happ]
+    simp [calledNames, List.count_append]
+    omega
+  omega
+
+/-- a history in two parts -/
+theorem run_append (c : Cfg) (caller : Text) (h1 h2 : List Step) : ∀ w : World,
+    (run c caller w (h1 ++ h2)).1 = (run c caller (run c caller w h1).1 h2).1 := by
+  induction h1 with
+  | nil => intro w; rfl
+  | cons st h1 ih => intro w; simp only [List.cons_append, run]; exact ih _
 
 end GoSnaps.CleanWorld
